@@ -46,3 +46,86 @@ def handle (args : Toks) : String :=
   | _ => "bad-op"
 
 end OW.Driver.Kernel
+
+namespace OW.Driver.Kernel
+open OW OW.Proto
+
+/-- parse the common `Model init p ins st` prefix -/
+def popCall (ts : Toks) : Option ((String × Nat × List Float × List (List Float) × List Float) × Toks) :=
+  match ts with
+  | name :: rest => do
+    let (init, ts) ← popN rest
+    let (p, ts) ← popFs ts
+    let (ins, ts) ← popSeries ts
+    let (st, ts) ← popFs ts
+    pure ((name, init, p, ins, st), ts)
+  | [] => none
+
+def fmtOk (o : KOut Float) (T : Nat) : String :=
+  joinToks (toString o.outputs.length :: toString T :: (o.outputs.flatMap (·.map fmtF)) ++ [fmtFs o.states])
+
+/-- split a list at the cumulative positions `ks` -/
+def splitAts {β} (xs : List β) : List Nat → Nat → List (List β)
+  | [], _ => [xs]
+  | k :: ks, done => xs.take (k - done) :: splitAts (xs.drop (k - done)) ks k
+
+/-- `KSPLIT id Model init p ins st nsplit k1 … kn` → `ok <whole> ## <split>`:
+the whole period in one call, and the same period in consecutive calls that carry the final states forward. -/
+def handleSplit (args : Toks) : String :=
+  match popCall args with
+  | none => "bad-op"
+  | some ((name, init, p, ins, st), ts) =>
+    match popNs ts with
+    | none => "bad-op"
+    | some (ks, _) =>
+      let T := match ins with | s :: _ => s.length | [] => 0
+      match runCall name init p ins st with
+      | .error e => "panic " ++ e
+      | .ok whole =>
+        -- consecutive segments
+        let segs : List (List (List Float)) :=
+          -- per segment: the slice of every input series
+          let cuts := ks
+          let perInput := ins.map fun s => splitAts s cuts 0
+          (List.range (ks.length + 1)).map fun j => perInput.map fun parts => parts[j]?.getD []
+        let rec go (segs : List (List (List Float))) (first : Bool) (st : List Float) (nOut : Nat)
+            (acc : List (List Float)) : Except String (List (List Float) × List Float) :=
+          match segs with
+          | [] => .ok (acc, st)
+          | sg :: rest =>
+            match runCall name (if first then init else 0) p sg st with
+            | .error e => .error e
+            | .ok r =>
+              let acc' := if acc.isEmpty then r.outputs else (acc.zip r.outputs).map fun (a, b) => a ++ b
+              go rest false r.states nOut acc'
+        match go segs true st whole.outputs.length [] with
+        | .error e => "panic " ++ e
+        | .ok (outs, sf) =>
+          "ok " ++ fmtOk whole T ++ " ## " ++ fmtOk { outputs := outs, states := sf } T
+    
+/-- `KHIST id nruns (slot ntoks call…)…` → `ok (status result…)…` one result per run. The model is history-free:
+every run is computed from its own parameters, states and inputs only. -/
+def handleHist (args : Toks) : String :=
+  match popN args with
+  | none => "bad-op"
+  | some (n, ts) =>
+    let rec go : Nat → Toks → List String → String
+      | 0, _, acc => joinToks ("ok" :: acc.reverse)
+      | k + 1, ts, acc =>
+        match (do
+          let (_slot, ts) ← popN ts
+          let (len, ts) ← popN ts
+          pure (ts.take len, ts.drop len)) with
+        | none => "bad-op"
+        | some (call, rest) =>
+          match popCall call with
+          | none => "bad-op"
+          | some ((name, init, p, ins, st), _) =>
+            let T := match ins with | s :: _ => s.length | [] => 0
+            -- a panic in a kernel goroutine kills the process: the whole history reports it
+            match runCall name init p ins st with
+            | .error e => "panic " ++ e
+            | .ok o => go k rest (("run " ++ fmtOk o T) :: acc)
+    go n ts []
+
+end OW.Driver.Kernel
